@@ -277,10 +277,19 @@ def h_hint_formulas(ctx):
     f = ctx.fn(trl.Automaton.implies_type_hints)
     r = ctx.call(f, aut, P, label='implies_type_hints')
     tr = r.t if isinstance(r, SymBool) else z3.BoolVal(bool(r))
-    w.oblige('implies_type_hints(u) <=> for all values, u => lo <= x <= hi',
-             tr == w.valid(z3.Implies(w.term(P), inr)))
+    allhints = inr
+    if 'k' in w.shape.const:
+        klo, khi = w.shape.const['k']
+        K = den.var_int('k')
+        allhints = z3.And(inr, z3.BitVecVal(klo, W) <= K, K <= z3.BitVecVal(khi, W))
+    w.oblige('implies_type_hints(u) <=> for all values, u => type hints of every declared variable AND constant',
+             tr == w.valid(z3.Implies(w.term(P), allhints)))
+    r3 = ctx.call(f, aut, P, vrs=['x'], label='implies_type_hints')
+    tr3 = r3.t if isinstance(r3, SymBool) else z3.BoolVal(bool(r3))
+    w.oblige('implies_type_hints(u, vrs=[x]) <=> for all values, u => lo <= x <= hi',
+             tr3 == w.valid(z3.Implies(w.term(P), inr)))
     r2 = ctx.call(f, aut, P, vrs=['b'], label='implies_type_hints')
     tr2 = r2.t if isinstance(r2, SymBool) else z3.BoolVal(bool(r2))
     w.oblige('implies_type_hints(u, vrs=[Boolean]) is TRUE', tr2)
     w.canary('hint canary: implies_type_hints(u) <=> u implies the complement of the hint',
-             tr == w.valid(z3.Implies(w.term(P), z3.Not(inr))))
+             tr3 == w.valid(z3.Implies(w.term(P), z3.Not(inr))))
